@@ -116,6 +116,8 @@ def impl_features(it, info):
     # coarse root-cause classes (first match) for combinations validation lets through although no fragment dialect exists for them
     if it.kind == "enum" and base_cls == "existing":
         feats = ["<enum_into_existing>"]
+    elif it.kind == "enum" and base_cls == "into" and any(any(a.kind == "map" and isinstance(a.f.get("member"), int) and a.f.get("action") is None and applies(a) for a in v.attrs) for v in it.variants):
+        feats = ["<variant_into_index>"]
     elif base_cls == "existing" and "update" in feats:
         feats = ["<update_on_into_existing>"]
     elif "parent_bare" in feats and "return" in feats and base_cls != "from":
